@@ -371,11 +371,11 @@ def dom_behaviours(tier):
     return path, st
 
 
-def dom_replay(prop, tier, seed, res, classes):
+def dom_replay(prop, tier, seed, res, classes, extra=(), label="dom"):
     beh, st = dom_behaviours(tier)
     exe = build_harness()
-    out = fresh(prop, "dom")
-    summ = run_replay_with_crash_isolation(exe, ["dom-replay", "--beh", beh, "--seed", seed, "--out", out], out, res, "dom-replay")
+    out = fresh(prop, label)
+    summ = run_replay_with_crash_isolation(exe, ["dom-replay", "--beh", beh, "--seed", seed, "--out", out] + list(extra), out, res, "dom-replay")
     for m in summ["mismatches"]:
         if m.get("class") in classes:
             res.add_mismatch(m)
@@ -386,7 +386,7 @@ def dom_replay(prop, tier, seed, res, classes):
     c["distinct_nontrivial"] += summ["nontrivial"]
     c["traces_validated_against_impl"] += summ["histories"]
     c["samples"] += summ["samples"][:2]
-    c.setdefault("replay", {})["dom"] = {k: summ[k] for k in ("histories", "steps", "per_op")}
+    c.setdefault("replay", {})[label] = {k: summ[k] for k in ("histories", "steps", "per_op")}
     c.setdefault("tlc", {})["MC_Dom"] = st
     return summ
 
@@ -406,8 +406,12 @@ def check_C16(tier, seed):
     res = Result("C16", tier, seed, "model_checking")
     res.coverage["rule"] = ("same histories: TLC checks RcExact (every count = number of live handles), NoLeakNoDangling (alive <=> referenced, released exactly once), AllDroppedEmpty; "
                             "the replay compares the number of live arenas after every step (hook: released-arena counter) and requires the heap to return exactly to its previous level "
-                            "after every history; survivors are read in full after their document is dropped. non-trivial = histories containing at least one mutation")
+                            "after every history; survivors are read in full after their document is dropped; the histories are replayed a second time with every step on a fresh OS thread and a final "
+                            "phase in which every remaining value and a clone of it are read and dropped by concurrent threads (barrier). non-trivial = histories containing at least one mutation")
     dom_replay("C16", tier, seed, res, ("arena", "leak", "crash"))
+    # "from any thread": the same histories with every step on a fresh OS thread (values created, mutated and dropped on different threads),
+    # then every remaining value and a clone of it read in full and dropped by concurrent threads released by a barrier
+    dom_replay("C16", tier, seed, res, ("arena", "leak", "crash", "dom", "panic"), extra=["--threads", 1], label="dom_threads")
     # values own their data: entry points that overwrite the input buffer before reading the value (incl. the
     # embedded / stream / raw-number paths) are judged by the denotation of the text
     jt_record_validate("C16", tier, seed + 16, res, 3000 if tier == QUICK else 100000, checks=("value", "panic"))
